@@ -262,6 +262,36 @@ fn run_level(script: &Value) -> Value {
     json!({"results": out})
 }
 
+/// direct calls of per-order functions
+fn run_order(script: &Value) -> Value {
+    let mut out = Vec::new();
+    for op in script["ops"].as_array().unwrap() {
+        let r = std::panic::catch_unwind(std::panic::AssertUnwindSafe(|| {
+            let o = order(&op["order"]);
+            match op["op"].as_str().unwrap() {
+                "match_against" => {
+                    let (consumed, updated, hidden_reduced, remaining) =
+                        o.match_against(op["incoming"].as_u64().unwrap());
+                    json!({"consumed": consumed, "updated": updated.map(|u| order_json(&u)),
+                           "hidden_reduced": hidden_reduced, "remaining": remaining})
+                }
+                "with_reduced_quantity" => {
+                    json!({"order": order_json(&o.with_reduced_quantity(op["quantity"].as_u64().unwrap()))})
+                }
+                k => panic!("unknown order op {k}"),
+            }
+        }));
+        match r {
+            Ok(v) => out.push(v),
+            Err(_) => {
+                out.push(json!({"panic": true}));
+                break;
+            }
+        }
+    }
+    json!({"results": out})
+}
+
 fn run_queue(script: &Value) -> Value {
     let mut q = OrderQueue::new();
     let mut out = Vec::new();
@@ -285,6 +315,7 @@ fn main() {
     let script: Value = serde_json::from_str(&text).expect("script json");
     let res = match script["kind"].as_str().unwrap_or("level") {
         "queue" => run_queue(&script),
+        "order" => run_order(&script),
         _ => run_level(&script),
     };
     println!("{}", serde_json::to_string(&res).unwrap());
